@@ -34,18 +34,17 @@ Section Delete.
   (* the lock is released from Drop on every error path after acquisition *)
   Definition release_fail : prog dres := Do (OpRemoveFile PLock) (fun _ => Ret dfail).
 
-  (* raw hunks of one band, as Archive::referenced_blocks reads them
-     (IndexHunkIter without `after`): the hashes named by every address *)
+  (* raw hunks of one band, as Archive::referenced_blocks reads them: every listed hunk,
+     and ANY failure (unreadable, undecodable, listed but missing) aborts the delete *)
   Fixpoint ref_hunks (b : N) (hs : list N) (acc : list bytes) (k : list bytes -> prog dres) : prog dres :=
     match hs with
     | [] => k acc
     | h :: hs' =>
         Do (OpRead (PHunk b h)) (fun r =>
           match r with
-          | RErr ENotFound => k acc
           | RData (Good (PlHunk es)) =>
               ref_hunks b hs' (acc ++ flat_map (fun e => map a_hash (e_addrs e)) es) k
-          | _ => ref_hunks b hs' acc k
+          | _ => release_fail
           end)
     end.
 
@@ -56,7 +55,7 @@ Section Delete.
         Do (OpList (DHunkSub b s)) (fun r =>
           match r with
           | RList _ fs => ref_subdirs b subs' (acc ++ hunk_numbers fs) k
-          | _ => Panic
+          | _ => release_fail
           end)
     end.
 
@@ -74,21 +73,21 @@ Section Delete.
                 | RList ds _ =>
                     ref_subdirs b (subdir_numbers ds) []
                       (fun hs => ref_hunks b hs acc (fun acc' => ref_bands bands' acc' k))
-                | _ => Panic
+                | _ => release_fail
                 end)
           end)
     end.
 
-  Fixpoint list_blocks_d (subs : list N) (acc : list bytes) (k : list bytes -> prog dres) : prog dres :=
+  Fixpoint list_blocks_d (subs : list N) (acc : list bytes) (failed : bool) (k : list bytes -> prog dres) : prog dres :=
     match subs with
-    | [] => k acc
+    | [] => if failed then release_fail else k acc
     | s :: subs' =>
         Do (OpList (DBlockSub s)) (fun r =>
           match r with
           | RList _ fs =>
               list_blocks_d subs'
-                (acc ++ flat_map (fun p => match p with (PBlock c, true) => [c] | _ => [] end) fs) k
-          | _ => release_fail
+                (acc ++ flat_map (fun p => match p with (PBlock c, true) => [c] | _ => [] end) fs) failed k
+          | _ => list_blocks_d subs' acc true k
           end)
     end.
 
@@ -150,7 +149,7 @@ Section Delete.
                 Do (OpList DBlocks) (fun r2 =>
                   match r2 with
                   | RList ds2 _ =>
-                      list_blocks_d (block_subdirs ds2) [] (fun present =>
+                      list_blocks_d (block_subdirs ds2) [] false (fun present =>
                         let unref := order_by hint (filter (fun c => negb (mem_bytes c referenced)) (dedup present)) in
                         let nun := N.of_nat (length unref) in
                         measure unref (
